@@ -38,6 +38,7 @@ def pipeline(y1: int, y2: int, y3: int, yf: int, yg: int, yh: int) -> bool:
     pre: (RCONLY == 0 or (yf == 0 and yg == 0 and yh == 0)) and (FIXY1 < 0 or y1 == FIXY1) and 0 <= y1 <= YMAX and 0 <= y2 <= YMAX and 0 <= y3 <= YMAX and 0 <= yf <= YMAX and 0 <= yg <= YMAX and 0 <= yh <= YMAX
     post: _
     """
+    xs.path_start()
     ys = {"1": xs.pick(y1, 0, YMAX + 1), "2": xs.pick(y2, 0, YMAX + 1), "3": xs.pick(y3, 0, YMAX + 1), "901": xs.pick(yf, 0, YMAX + 1), "902": xs.pick(yg, 0, YMAX + 1), "501": xs.pick(yh, 0, YMAX + 1), "502": 0}
     text = EXPRS[EXPR]
     st = STATE_SETS[STATES]
@@ -72,6 +73,7 @@ def gather_mask(k: int, a0: bool, a1: bool, a2: bool, a3: bool, y0: int, y1: int
     pre: 0 <= y0 <= YMAX and 0 <= y1 <= YMAX and 0 <= y2 <= YMAX and 0 <= y3 <= YMAX
     post: _
     """
+    xs.path_start()
     k = xs.pick(k, 1, 5)
     aws, ys = [a0, a1, a2, a3][:k], [y0, y1, y2, y3][:k]
 
@@ -103,6 +105,7 @@ def evaluators(y0: int, y1: int, y2: int, dup: bool) -> bool:
     pre: 0 <= y0 <= YMAX and 0 <= y1 <= YMAX and 0 <= y2 <= YMAX
     post: _
     """
+    xs.path_start()
     ys = [xs.pick(y0, 0, YMAX + 1), xs.pick(y1, 0, YMAX + 1), xs.pick(y2, 0, YMAX + 1)]
     rck, fck, hk = ["7", "3", "11"], ["950", "901", "977"], ["510", "501", "599"]
     if dup:
@@ -163,6 +166,7 @@ def concurrent(a1: int, a2: int, b1: int, b2: int, fa: bool, fb: bool, off: int,
     pre: a1 == FIX3[0] and a2 == FIX3[1] and b1 == FIX3[2] and 0 <= b2 < NS and 0 <= off <= 2 and 2 <= n <= NMAX and fa and not fb
     post: _
     """
+    xs.path_start()
     # n concurrent evaluations whose EvaluatableData comes from context-local storage; the real ContentEvaluationResult-based evaluators
     a1, a2, b1, b2, off, n = FIX3[0], FIX3[1], FIX3[2], xs.pick(b2, 0, NS), xs.pick(off, 0, 3), xs.pick(n, 2, NMAX + 1)
     fa, fb = True, False
@@ -205,6 +209,7 @@ def concurrent_user(a1: int, a2: int, b1: int, b2: int, ya: int, yb: int, off: i
     pre: FIX3[0] < 0 or (a1 == FIX3[0] and a2 == FIX3[1] and b1 == FIX3[2])
     post: _
     """
+    xs.path_start()
     # two concurrent evaluations; a user-written RcEvaluator (evaluate_<key> coroutine methods that really suspend) judges by the
     # evaluatable data handed to it, which comes from context-local storage
     a1, a2, b1, b2 = xs.pick(a1, 0, 3), xs.pick(a2, 0, 3), xs.pick(b1, 0, 3), xs.pick(b2, 0, 3)
